@@ -13,7 +13,11 @@ Cat == <<
   [max |-> 70000, frames |-> <<Msg(2, <<1, 2>>, <<>>, Rep(300, 255)), Msg(227, <<5>>, <<>>, <<>>), Msg(2, <<>>, <<>>, Rep(65804, 1)), Msg(1, <<9>>, <<>>, <<>>)>>],
   \* oversize in the 14 and 15 classes
   [max |-> 100,  frames |-> <<Msg(1, <<>>, <<>>, <<>>), Msg(2, <<7>>, <<>>, Rep(200, 3)), Msg(3, <<>>, <<>>, <<>>)>>],
-  [max |-> 1152, frames |-> <<Msg(1, <<4>>, <<>>, Rep(5, 5)), Msg(2, <<>>, <<>>, Rep(66000, 3)), Msg(3, <<>>, <<>>, <<>>)>>]
+  [max |-> 1152, frames |-> <<Msg(1, <<4>>, <<>>, Rep(5, 5)), Msg(2, <<>>, <<>>, Rep(66000, 3)), Msg(3, <<>>, <<>>, <<>>)>>],
+  \* the top of the two-byte length class (declared lengths 65536 .. 65804, extension 0xFEF3 .. 0xFFFF): delivered whole under a
+  \* large limit, refused on the header under the default one
+  [max |-> 70000, frames |-> <<Msg(1, <<3>>, <<>>, <<>>), Msg(2, <<>>, <<>>, Rep(65803, 2)), Msg(2, <<8>>, <<>>, Rep(65535, 4)), Msg(2, <<>>, <<>>, Rep(65700, 6)), Msg(1, <<9>>, <<>>, <<>>)>>],
+  [max |-> 65536, frames |-> <<Msg(1, <<3>>, <<>>, <<>>), Msg(2, <<>>, <<>>, Rep(65803, 2)), Msg(1, <<9>>, <<>>, <<>>)>>]
 >>
 RECURSIVE Concat(_)
 Concat(fs) == IF fs = <<>> THEN <<>> ELSE EncTCP(Head(fs)) \o Concat(Tail(fs))
